@@ -26,6 +26,12 @@ type Job struct {
 	// (the harness asserts on them itself) and are not obligations.
 	AllowPanic []string
 	Bounds     string
+	// Abstract: the job runs on abstract tables; a counterexample found there is reported as a
+	// violation only if a concrete (corpus) job of the same check fails the same assertion.
+	Abstract bool
+	// RequiredCovers: if non-nil only these cover points must be reachable (others may be
+	// unreachable at this bound without making the harness vacuous).
+	RequiredCovers []string
 	// MaxCoverReplays limits how many cover models are replayed natively (default all).
 	MaxCoverReplays int
 }
@@ -44,13 +50,15 @@ type ObSample struct {
 }
 
 type Finding struct {
-	Job     string
-	Ob      string
-	Msg     string
-	Replay  string
-	Native  *NativeResult
-	Known   string
-	Confirm bool
+	Job      string
+	Ob       string
+	Msg      string
+	Replay   string
+	Native   *NativeResult
+	Known    string
+	Confirm  bool
+	What     string
+	Abstract bool
 }
 
 // Ctx accumulates the results of one check run.
@@ -62,31 +70,32 @@ type Ctx struct {
 	Backend solver.Backend
 	Par     int
 
-	mu             sync.Mutex
-	T0             time.Time
-	Samples        []ObSample
-	Obligations    int
-	Discharged     int
-	Folded         int
-	States         int64
-	Transitions    int64
-	Validated      int
-	ValidationRuns []string
-	SolverSeconds  float64
-	ExecSeconds    float64
-	Funcs          map[string]int
-	Stubs          map[string]int
-	BoundsText     []string
-	Assumptions    []string
-	Violations     []Finding
-	KnownHits      []string
-	Inconclusive   []string
-	Mismatches     []string
-	Notes          []string
-	Jobs           int
-	Extra          map[string]interface{}
-	progs          map[string]*loaded
-	bins           map[string]string
+	mu               sync.Mutex
+	T0               time.Time
+	Samples          []ObSample
+	Obligations      int
+	Discharged       int
+	Folded           int
+	States           int64
+	Transitions      int64
+	Validated        int
+	ValidationRuns   []string
+	SolverSeconds    float64
+	ExecSeconds      float64
+	Funcs            map[string]int
+	Stubs            map[string]int
+	BoundsText       []string
+	Assumptions      []string
+	Violations       []Finding
+	AbstractFindings []Finding
+	KnownHits        []string
+	Inconclusive     []string
+	Mismatches       []string
+	Notes            []string
+	Jobs             int
+	Extra            map[string]interface{}
+	progs            map[string]*loaded
+	bins             map[string]string
 }
 
 type loaded struct {
@@ -253,6 +262,10 @@ func (c *Ctx) runJob(j Job) {
 			}
 		case o.Ob.Expect == "unsat" && o.Status == "sat":
 			c.handleCounterexample(j, e, o)
+		case o.Ob.Expect == "sat" && o.Status == "unsat" && j.RequiredCovers != nil && !contains(j.RequiredCovers, o.Ob.Rec.Msg):
+			c.mu.Lock()
+			c.Discharged++
+			c.mu.Unlock()
 		case o.Ob.Expect == "sat" && o.Status == "unsat":
 			c.mu.Lock()
 			c.Inconclusive = append(c.Inconclusive, fmt.Sprintf("%s: cover point %q is unreachable (vacuous harness)", j.Name, o.Ob.Rec.Msg))
@@ -263,6 +276,15 @@ func (c *Ctx) runJob(j Job) {
 			c.mu.Unlock()
 		}
 	}
+}
+
+func contains(l []string, s string) bool {
+	for _, x := range l {
+		if x == s {
+			return true
+		}
+	}
+	return false
 }
 
 func round3(f float64) float64 { return float64(int(f*1000)) / 1000 }
@@ -347,9 +369,13 @@ func (c *Ctx) handleCounterexample(j Job, e *engine.Engine, o engine.Outcome) {
 	if nr.AssumeFailed != 0 {
 		confirmed = false
 	}
-	f := Finding{Job: j.Name, Ob: o.Ob.Name, Msg: fmt.Sprintf("%s: %s (%s)", o.Ob.Kind, o.Ob.Rec.Msg, o.Ob.Rec.Pos), Replay: p, Native: nr, Confirm: confirmed}
+	f := Finding{Job: j.Name, Ob: o.Ob.Name, Msg: fmt.Sprintf("%s: %s (%s)", o.Ob.Kind, o.Ob.Rec.Msg, o.Ob.Rec.Pos), Replay: p, Native: nr, Confirm: confirmed, What: o.Ob.Rec.Msg, Abstract: j.Abstract}
 	if !confirmed {
 		c.Mismatches = append(c.Mismatches, fmt.Sprintf("%s %s %q: solver model does not reproduce natively (failures=%v panic=%q assume_failed=%d) replay=%s", j.Name, o.Ob.Kind, o.Ob.Rec.Msg, nr.Failures, nr.Panic, nr.AssumeFailed, p))
+		return
+	}
+	if j.Abstract {
+		c.AbstractFindings = append(c.AbstractFindings, f)
 		return
 	}
 	c.Violations = append(c.Violations, f)
@@ -444,6 +470,20 @@ func max64(a, b int64) int64 {
 
 // Finish prints the verdict lines and returns the exit code.
 func (c *Ctx) Finish() int {
+	// abstract-table counterexamples: believed only with a concrete witness of the same assertion
+	for _, a := range c.AbstractFindings {
+		found := false
+		for _, v := range c.Violations {
+			if v.What == a.What {
+				found = true
+			}
+		}
+		if !found {
+			c.Inconclusive = append(c.Inconclusive, fmt.Sprintf("%s: abstract-table counterexample for %q does not transfer to any corpus grammar (tables no grammar produces, or corpus too small); replay=%s", a.Job, a.What, a.Replay))
+		} else {
+			c.Notes = append(c.Notes, fmt.Sprintf("abstract-table counterexample for %q (job %s) confirmed by a corpus grammar", a.What, a.Job))
+		}
+	}
 	c.WriteEvidence()
 	code := 0
 	for _, k := range c.KnownHits {
